@@ -439,9 +439,15 @@ def r7_group_cardinality(ctx, rule):
     ctx.floor(rule, PGF, n, 2, 'values[0] uses in the emitters')
 
 
+def _exact_float(ctx, rule):
+    from . import c01 as _c01
+    return _c01.r9_exact_float_discipline(ctx, rule)
+
+
 def rules(tier):
     return [('C04.R1', r1_dispatch), ('C04.R2', r2_structural_recursion), ('C04.R3', r3_mask_slices),
-            ('C04.R4', r4_count_write_pairing), ('C04.R5', r5_grouping_kernel), ('C04.R7', r7_group_cardinality)]
+            ('C04.R4', r4_count_write_pairing), ('C04.R5', r5_grouping_kernel), ('C04.R7', r7_group_cardinality),
+            ('C04.R8', _exact_float)]
 
 
 META = {
